@@ -12,8 +12,20 @@ import lib
 
 NS = "Ural.Props.C19.Facebook."
 THEOREMS = [NS + n for n in [
+    "get_hostname_total",
+    "is_facebook_url_total",
+    "is_facebook_post_url_total",
+    "is_facebook_link_total",
+    "parse_facebook_url_total",
+    "has_facebook_comments_total",
+    "convert_only_documented_error",
 ]]
 TABLE_OBLIGATIONS = [NS + n for n in [
+    "patterns_unchanged",
+    "base_url_unchanged",
+    "url_templates_unchanged",
+    "types_having_comments_unchanged",
+    "canonical_host_accepted",
 ]]
 
 OPS = ("fb_parse", "fb_comments", "fb_pred", "fb_record", "fb_reparse", "fb_re", "fb_py")
